@@ -30,7 +30,7 @@ void verif_native_assert(_Bool c, const char* m) {
 void __CPROVER_assume(_Bool c) { verif_native_assume(c); }
 void __CPROVER_assert(_Bool c, const char* m) { verif_native_assert(c, m); }
 void verif_out(uint64_t v) { printf("O %llu\n", (unsigned long long)v); }
-void verif_set_tid(uint32_t t) { verif_os_tid = (int)t; }
+__attribute__((weak)) void verif_set_tid(uint32_t t) { verif_os_tid = (int)t; }
 
 #ifdef __cplusplus
 extern "C"
